@@ -22,8 +22,11 @@ VARIABLES l,      \* next line of the trace
           cpost,  \* ClosedPost has been logged on this connection
           late,   \* goroutines whose current lock wait began after ClosedPost (rule R3: only these must see the connection closed)
           skip,   \* the rest of this connection is not replayed (see R3Reorder)
-          nskip   \* connections given up that way (reported)
-tvars == <<l, gm, sil, win, rel, cpost, late, skip, nskip>>
+          nskip,  \* connections given up that way (reported)
+          pend    \* the step of K that runs under closeMu (casClosing, the end of waitGoroutines) whose line has been read but which has
+                  \* not been placed yet: the line is written INSIDE the critical section, closeMu is held from before it until K's
+                  \* next line, and WSConn's one atomic step may lie anywhere in that interval ("none" = nothing pending)
+tvars == <<l, gm, sil, win, rel, cpost, late, skip, nskip, pend>>
 
 e == Log[l]
 Proc(g) == IF g \in DOMAIN gm THEN gm[g] ELSE "none"
@@ -80,7 +83,10 @@ Mapped ==
               THEN (IF q = R THEN Reader ELSE Closer) /\ pc'[q] = Pfx(q) \o "xf_cl0"
          ELSE Stutter
     \* ---------------- writeFrame ----------------
-    [] e.ev = "WfArm" -> \E t \in At(q, "_arm") : FrameArm(q, t[2]) /\ pc'[q] = t[2] \o "_hdr"
+    \* the line is written after the select that armed the frame: the arm itself lies between LockOK and this line and may have been
+    \* placed already (silent step EarlyArm)
+    [] e.ev = "WfArm" -> IF At(q, "_arm") # {} THEN \E t \in At(q, "_arm") : FrameArm(q, t[2]) /\ pc'[q] = t[2] \o "_hdr"
+                         ELSE At(q, "_hdr") # {} /\ Stutter
     [] e.ev = "WfArmFail" -> \E t \in At(q, "_arm") : FrameArm(q, t[2]) /\ pc'[q] = t[2] \o "_wfunlock"
     [] e.ev = "WfRet" -> IF e.b # 0 /\ At(q, "_arm") # {}          \* refused: a Close frame has been sent (no arm, no header)
                          THEN \E t \in At(q, "_arm") : FrameArm(q, t[2]) /\ pc'[q] = t[2] \o "_wfunlock"
@@ -97,17 +103,22 @@ Mapped ==
     [] e.ev = "PingResClosed" -> PWait /\ ret'[P] = "errClosed"
     [] e.ev = "PingUnreg" -> IF pc[P] = "p_wait" THEN PWait ELSE Stutter       \* the ping frame could not be written: Ping returns that error
     \* ---------------- the read loop (Read, or the loop inside Close) ----------------
+    \* ReadFrame takes a whole frame; a control frame has been read when its payload has (CtlPayload) -- the connection may be
+    \* closed under the payload read, and the reader then leaves as if it had been woken before the frame (UnlockPre rd, silent step)
     [] e.ev = "RdHeader" /\ q \in {R, K, AC} ->
-         /\ inq # <<>>
+         /\ inq # <<>> /\ pc[q] = Pfx(q) \o "_hdr_in"
          /\ Head(inq) = (CASE e.a = OpPing -> "ping" [] e.a = OpPong -> "pong" [] e.a = OpClose -> "close" [] OTHER -> "data")
+         /\ IF e.a \in {OpPing, OpPong, OpClose} THEN Stutter ELSE ReadFrame(q, Pfx(q), Pfx(q) \o "_hdr_in")
+    [] e.ev = "CtlPayload" /\ q \in {R, K, AC} ->
+         /\ inq # <<>>
+         /\ Head(inq) = (CASE e.a = OpPing -> "ping" [] e.a = OpPong -> "pong" [] OTHER -> "close")
          /\ ReadFrame(q, Pfx(q), Pfx(q) \o "_hdr_in")
     [] e.ev = "PongRcvd" -> IF q \in {R, K} /\ pc[q] = Pfx(q) \o "_pongsig" THEN PongSignal(q, Pfx(q)) ELSE Stutter
     [] e.ev = "RdHeaderErr" /\ q \in {R, K, AC} ->
          IF pc[q] # Pfx(q) \o "_hdr_in" THEN Stutter
          ELSE (IF q = R THEN Reader ELSE Closer) /\ pc'[q] = Pfx(q) \o "_rdunlock" /\ closed
     \* ---------------- Close / close() ----------------
-    [] e.ev = "CasClosingOK" -> Cas(K, "k_cas", "k1_wflock", "kl_wg") /\ pc'[K] = "k1_wflock"
-    [] e.ev = "CasClosingFail" -> Cas(K, "k_cas", "k1_wflock", "kl_wg") /\ pc'[K] = "kl_wg"
+    [] e.ev \in {"CasClosingOK", "CasClosingFail"} -> pc[K] = "k_cas" /\ Stutter        \* placed by the silent step Pending
     [] e.ev = "CloseEnter" /\ q \in {R, K, AC} ->
          \E t \in InClose(q, "_cl0") :
             IF t[4] THEN (IF q = R THEN Reader ELSE Closer) /\ pc'[q] = t[2] \o "_clA"
@@ -126,8 +137,7 @@ Mapped ==
     [] e.ev = "ForceLock" /\ e.l = "rd" /\ q \in {R, K, AC} -> \E t \in InClose(q, "_cl2") : CmForceRd(q, t[2], FALSE)
     [] e.ev = "CloseExit" /\ q \in {R, K, AC} -> InClose(q, "_clZ") # {} /\ Stutter       \* closeMu is released after this line: silent
     \* waitGoroutines' last step, logged while it holds closeMu (so that "closeMu was free" is observed where it is true)
-    [] e.ev = "WgCloseMu" /\ q = K -> IF pc[K] = "k_wg" THEN WaitGor(K, "k_wg", "k_done", "returned")
-                                     ELSE IF pc[K] = "kl_wg" THEN WaitGor(K, "kl_wg", "k_done", "errClosed") ELSE Stutter
+    [] e.ev = "WgCloseMu" /\ q = K -> Stutter                                           \* placed by the silent step Pending
     [] e.ev = "TLExit" -> TLExit
     \* ---------------- the peer (announced by the harness before the bytes are written) ----------------
     [] e.ev = "PeerSent" /\ e.a = OpPong -> SawOut("ping") /\ PeerAct("pong", "pong")
@@ -151,20 +161,44 @@ Consume == /\ l <= Len(Log) /\ l' = l + 1 /\ sil' = 0
                     ELSE IF e.ev = "Actor" THEN [x \in DOMAIN gm \cup {e.g} |-> IF x = e.g THEN e.s ELSE gm[x]]
                     ELSE IF IsAC THEN [x \in DOMAIN gm \cup {e.g} |-> IF x = e.g THEN AC ELSE gm[x]]
                     ELSE IF e.ev = "TLStart" THEN [x \in DOMAIN gm \cup {e.g} |-> IF x = e.g THEN "TL" ELSE gm[x]] ELSE gm
+           /\ (q = K /\ ~skip /\ e.ev # "TraceReset") => pend = "none"        \* K's pending step comes before K's next line
+           /\ pend' = IF e.ev = "TraceReset" THEN "none"
+                      ELSE IF skip \/ R3Reorder THEN pend
+                      ELSE IF q = K /\ e.ev \in {"CasClosingOK", "CasClosingFail"} THEN e.ev
+                      ELSE IF q = K /\ e.ev = "WgCloseMu" /\ pc[K] \in {"k_wg", "kl_wg"} THEN e.ev ELSE pend
            /\ IF (skip \/ R3Reorder) /\ e.ev # "TraceReset" THEN Stutter ELSE Mapped
 
+NextIs(S) == l <= Len(Log) /\ Log[l].ev \in S
 (* steps the code takes without a hook *)
-Silent == /\ ~skip /\ sil < 3 /\ sil' = sil + 1 /\ UNCHANGED <<l, gm, cpost, late, skip, nskip>>
+PendingStep == CASE pend = "CasClosingOK" -> Cas(K, "k_cas", "k1_wflock", "kl_wg") /\ pc'[K] = "k1_wflock"
+                 [] pend = "CasClosingFail" -> Cas(K, "k_cas", "k1_wflock", "kl_wg") /\ pc'[K] = "kl_wg"
+                 [] pend = "WgCloseMu" -> IF pc[K] = "k_wg" THEN WaitGor(K, "k_wg", "k_done", "returned") ELSE WaitGor(K, "kl_wg", "k_done", "errClosed")
+                 [] OTHER -> FALSE
+SilentStep ==
           /\ \/ KPre /\ UNCHANGED <<win, rel>>
              \/ win \notin {"none", "TL"} /\ win' = "none" /\ UNCHANGED rel /\ \E t \in InClose(win, "_clA") : CmFlip(win, t[2])
              \/ win = "TL" /\ win' = "none" /\ UNCHANGED rel /\ T5(K, "k")
              \/ \E x \in rel : rel' = rel \ {x} /\ UNCHANGED win /\ \E t \in InClose(x, "_clZ") : CmRelease(x, t[2], t[3])
              \/ UNCHANGED <<win, rel>> /\ closed /\ \E t \in FC : pc[t[1]] = t[2] \o "_disarm" /\ FrameDisarm(t[1], t[2])   \* rest of a torn frame
+             \* EarlyArm: a goroutine that holds the frame lock armed its frame before the events that precede its WfArm line
+             \/ UNCHANGED <<win, rel>> /\ NextIs({"ClosedPre", "ClosedPost", "TLExit"}) /\ \E t \in FC : pc[t[1]] = t[2] \o "_arm" /\ FrameArm(t[1], t[2]) /\ pc'[t[1]] = t[2] \o "_hdr"
+             \* closeWith(true) found closeMu taken -- by a casClosing or a waitGoroutines that has long finished when the line of the
+             \* readMu.unlock that follows is written: the TryLock is placed inside that window
+             \/ /\ UNCHANGED <<win, rel>>
+                /\ \E x \in {R, K} : pc[x] = Pfx(x) \o "x_cl0" /\ (IF x = R THEN Reader ELSE Closer) /\ pc'[x] = Pfx(x) \o "xf_cl0"
+             \* a reader that found the connection closed at one of readFrameHeader's two selects leaves without a line of its own:
+             \* placed right before the line of its deferred readMu.unlock
+             \/ /\ UNCHANGED <<win, rel>> /\ l <= Len(Log) /\ e.ev = "UnlockPre" /\ e.l = "rd" /\ q \in {R, K} /\ closed
+                /\ pc[q] = Pfx(q) \o "_hdr_in" /\ (IF q = R THEN Reader ELSE Closer) /\ pc'[q] = Pfx(q) \o "_rdunlock"
              \/ UNCHANGED <<win, rel>> /\ \E w \in Writers : pc[w] = "w_after" /\ wframe[w] < FramesOf[w] /\ ~closed /\ WNext(w)   \* Writer.Close after Writer.Write
              \/ UNCHANGED <<win, rel>> /\ \E x \in {R, K, AC} : \E t \in InClose(x, "_cl1") : ~Client /\ CmForceWf(x, t[2])             \* a server's close() takes no frame lock
              \/ UNCHANGED <<win, rel>> /\ \E x \in {R, K} : \E t \in InClose(x, "_cl2") : t[4] /\ CmForceRd(x, t[2], TRUE)          \* closeWith(true): readMu is already held
 
-TInit == Init /\ l = 1 /\ gm = <<>> /\ sil = 0 /\ win = "none" /\ rel = {} /\ cpost = FALSE /\ late = {} /\ skip = FALSE /\ nskip = 0 /\ TLCSet(1, 1) /\ TLCSet(3, 0)
+Silent == /\ ~skip /\ sil < 4 /\ sil' = sil + 1 /\ UNCHANGED <<l, gm, cpost, late, skip, nskip>>
+          /\ \/ pend # "none" /\ pend' = "none" /\ UNCHANGED <<win, rel>> /\ PendingStep
+             \/ UNCHANGED pend /\ SilentStep
+
+TInit == Init /\ l = 1 /\ gm = <<>> /\ sil = 0 /\ win = "none" /\ rel = {} /\ cpost = FALSE /\ late = {} /\ skip = FALSE /\ nskip = 0 /\ pend = "none" /\ TLCSet(1, 1) /\ TLCSet(3, 0)
 TNext == Consume \/ Silent
 HW == TLCSet(1, IF TLCGet(1) < l THEN l ELSE TLCGet(1)) /\ (l = Len(Log) + 1 => TLCSet(3, nskip))
 Accepted == IF TLCGet(1) = Len(Log) + 1 THEN PrintT(<<"R3-SKIPPED", TLCGet(3)>>)
